@@ -53,6 +53,8 @@ Definition keeps (cur : obj) (o : op) (r : res) : Prop :=
   | RRaise x | RSame x | RNone x => same_ca x cur
   | RNew x => same_ca x cur \/ (o = OAsMulti /\ o_cls x = o_cls cur + 4)
               \/ (exists b, o = OCtorVal b /\ o_cls x = o_cls cur)
+              \/ (exists k, o = OAsSat k /\ (o_cls x = 18 \/ o_cls x = 19)
+                            /\ nth 0 (o_attrs x) 0 = nth 0 (o_attrs cur) 0)
   | RPlain => True
   end.
 
@@ -81,7 +83,15 @@ Proof.
     try (brk; simpl; auto; try apply derive_keeps; fail).
   - (* OImul *) destruct (base_of (o_cls cur)); simpl; auto.
   - (* OReverse *) destruct (base_of (o_cls cur)); simpl; auto.
-  - (* OCtorVal *) brk; simpl; auto; right; right; eexists; split; reflexivity.
+  - (* OCtorVal *) brk; simpl; auto; right; right; left; eexists; split; reflexivity.
+  - (* OAsSat *) destruct (is_list_profile (o_cls cur)) eqn:El; simpl.
+    + destruct k as [|[|k]]; [| |destruct (forallb _ (o_payload cur))]; simpl; auto;
+        right; right; right; eexists; (split; [reflexivity|]); split; auto.
+    + destruct (is_multi_profile (o_cls cur)); simpl; auto.
+      destruct k as [|[|k]]; [| |destruct (forallb _ (o_payload cur))]; simpl; auto;
+        right; right; right; eexists; (split; [reflexivity|]); split; auto.
+  - (* OClear *) destruct (base_of (o_cls cur)); simpl; auto.
+  - (* OPop *) destruct (is_list_profile (o_cls cur)); simpl; auto. destruct (rev (o_payload cur)); simpl; auto.
 Qed.
 
 Lemma nl_eqb_eq l1 : forall l2, nl_eqb l1 l2 = true -> l1 = l2.
@@ -92,8 +102,16 @@ Qed.
 
 Lemma ctorval_not_promised c b : promised c (opname (OCtorVal b)) = false.
 Proof.
-  unfold promised, promised_names. destruct (base_of c); try (vm_compute; reflexivity).
-  destruct (Nat.eqb c 5); vm_compute; reflexivity.
+  unfold promised, promised_names.
+  destruct (Nat.eqb c 18 || Nat.eqb c 19); destruct (base_of c); try (vm_compute; reflexivity);
+    destruct (Nat.eqb c 5); vm_compute; reflexivity.
+Qed.
+
+Lemma assat_not_promised c k : promised c (opname (OAsSat k)) = false.
+Proof.
+  unfold promised, promised_names.
+  destruct (Nat.eqb c 18 || Nat.eqb c 19); destruct (base_of c); try (vm_compute; reflexivity);
+    destruct (Nat.eqb c 5); vm_compute; reflexivity.
 Qed.
 
 (* a promised operation never hands back a bare builtin *)
@@ -113,6 +131,10 @@ Proof.
     try (brk; try discriminate; apply (Hd _ eq_refl)).
   - (* OImul *) destruct (base_of (o_cls cur)); discriminate.
   - (* OReverse *) destruct (base_of (o_cls cur)); discriminate.
+  - (* OAsSat *) destruct (is_list_profile (o_cls cur) || is_multi_profile (o_cls cur)); [|discriminate].
+    destruct k as [|[|k]]; [| |destruct (forallb _ (o_payload cur))]; discriminate.
+  - (* OClear *) destruct (base_of (o_cls cur)); discriminate.
+  - (* OPop *) destruct (is_list_profile (o_cls cur)); [destruct (rev (o_payload cur))|]; discriminate.
 Qed.
 
 (* ------------------------------------------------------------------------------------------------------ *)
@@ -145,9 +167,10 @@ Proof.
     + intros Hf Hp. split.
       * apply step_promised; rewrite Hc; assumption.
       * intros x Hx Hno. pose proof (step_keeps tags cur other o) as H. rewrite Hx in H. simpl in H.
-        destruct H as [[H1 H2]|[[H1 _]|[b [H1 _]]]]; [|contradiction|].
+        destruct H as [[H1 H2]|[[H1 _]|[[b [H1 _]]|[k [H1 _]]]]]; [|contradiction| |].
         -- rewrite H1, H2. auto.
         -- subst o. rewrite ctorval_not_promised in Hp. discriminate.
+        -- subst o. rewrite assat_not_promised in Hp. discriminate.
   - apply IH; destruct (next_same tags cur other o) as [H1 H2]; congruence.
 Qed.
 
@@ -239,6 +262,58 @@ Section Validated.
       apply (IH (fun Hv' ec' H' => Hp Hv' ec' (or_intror H')) i ec Hin).
   Qed.
 
+  Ltac fin Hok := intros [H|[H|[H|H]]]; inversion H; subst; simpl; try exact Hok.
+
+  Lemma adm_nil c a : admissible c a [].
+  Proof. intros _ ec []. Qed.
+
+  (* a deriving operation hands back either nothing new or an object whose payload passed the constructor's check *)
+  Lemma derive_pay_ok cur other o' : pay_ok cur ->
+    forall y, (derive tags cur other o' = RRaise y \/ derive tags cur other o' = RSame y \/
+               derive tags cur other o' = RNone y \/ derive tags cur other o' = RNew y) -> pay_ok y.
+  Proof.
+    intros Hok y. unfold pay_ok in *. unfold derive.
+    destruct (derives (base_of (o_cls cur)) (opname o')) as [[|]|].
+    - destruct (rewrapped (o_cls cur) (opname o')).
+      + destruct (all_valid tags (o_cls cur) (o_attrs cur) _) eqn:E.
+        * intros [H|[H|[H|H]]]; inversion H; subst; simpl. apply all_valid_adm. exact E.
+        * fin Hok.
+      + intros [H|[H|[H|H]]]; discriminate.
+    - destruct (explicit (o_cls cur) (opname o')).
+      + fin Hok. apply adm_nil.
+      + intros [H|[H|[H|H]]]; discriminate.
+    - fin Hok.
+  Qed.
+
+  (* the operations that are not specific to list or Counter payloads *)
+  Lemma common_step_ok cur other o :
+    pay_ok cur ->
+    match o with
+    | OCopy | OCCopy | ODeepcopy | OPickle | OCtor | OBin _ _ | ORefl _ | OUpd _ _ | OMul _ | ORmul _ | OSlice _ _
+    | OReversed | OReverse | OCtorVal _ | OInstMut _ | OAsSat _ | OMutate _ | OClear | ORemoveSat => True
+    | _ => False
+    end ->
+    forall x, (step tags cur other o = RRaise x \/ step tags cur other o = RSame x
+               \/ step tags cur other o = RNone x \/ step tags cur other o = RNew x) -> pay_ok x.
+  Proof.
+    intros Hok Ho x. pose proof (derive_pay_ok cur other) as Hder. specialize (fun o' => Hder o' Hok x).
+    unfold pay_ok in *.
+    destruct o; try contradiction; unfold step; simpl; try (fin Hok; fail); try (apply Hder; fail).
+    - (* OBin *) destruct (String.eqb name "__add__" && Nat.eqb (o_cls cur) 5); [fin Hok; apply adm_nil|apply Hder].
+    - (* ORefl *) destruct (String.eqb name "__add__" && Nat.eqb (o_cls cur) 5); [fin Hok; apply adm_nil|apply Hder].
+    - (* OUpd *) destruct (_ && _); fin Hok.
+    - (* OReverse *) destruct (base_of (o_cls cur)); fin Hok.
+      eapply adm_incl; [|exact Hok]. intros y Hy. apply in_rev. exact Hy.
+    - (* OCtorVal *) destruct (is_list_profile (o_cls cur) || is_multi_profile (o_cls cur)); [|fin Hok].
+      destruct (all_valid tags (o_cls cur) _ (o_payload cur)) eqn:E; fin Hok. apply all_valid_adm. exact E.
+    - (* OAsSat *) destruct (is_list_profile (o_cls cur) || is_multi_profile (o_cls cur)); [|fin Hok].
+      destruct k as [|[|k]]; [| |destruct (forallb _ (o_payload cur))]; fin Hok; apply adm_nil.
+    - (* OMutate *) destruct (is_list_profile (o_cls cur) || is_multi_profile (o_cls cur)); [fin Hok|].
+      destruct (smemb name _); fin Hok.
+    - (* OClear *) destruct (base_of (o_cls cur)); fin Hok; apply adm_nil.
+    - (* ORemoveSat *) destruct (Nat.eqb (o_cls cur) 18 || Nat.eqb (o_cls cur) 19); fin Hok. apply adm_nil.
+  Qed.
+
   (* every mutator and every deriving operation of a LIST profile leaves an admissible payload *)
   Lemma list_profile_step_ok cur other o :
     is_list_profile (o_cls cur) = true -> pay_ok cur ->
@@ -246,75 +321,155 @@ Section Validated.
       (step tags cur other o = RRaise x \/ step tags cur other o = RSame x \/ step tags cur other o = RNone x
        \/ step tags cur other o = RNew x) -> pay_ok x).
   Proof.
-    intros Hl Hok x. unfold pay_ok in *.
+    intros Hl Hok x.
     assert (Hm : is_multi_profile (o_cls cur) = false).
     { unfold is_list_profile, is_multi_profile in *. apply andb_true_iff in Hl. destruct Hl as [H1 H2].
       apply Nat.leb_le in H1, H2. apply andb_false_iff. left. apply Nat.leb_gt. lia. }
-    assert (Hder : forall o', (match o' with OCopy | OBin _ _ | ORefl _ | OMul _ | ORmul _ | OSlice _ _ | OReversed => True
-                               | _ => False end) ->
-              forall y, (derive tags cur other o' = RRaise y \/ derive tags cur other o' = RSame y \/
-                         derive tags cur other o' = RNone y \/ derive tags cur other o' = RNew y) ->
-              admissible (o_cls y) (o_attrs y) (o_payload y)).
-    { intros o' _ y. unfold derive.
-      destruct (derives (base_of (o_cls cur)) (opname o')) as [[|]|].
-      - destruct (rewrapped (o_cls cur) (opname o')).
-        + destruct (all_valid tags (o_cls cur) (o_attrs cur) _) eqn:E.
-          * intros [H|[H|[H|H]]]; inversion H; subst; simpl. apply all_valid_adm. exact E.
-          * intros [H|[H|[H|H]]]; inversion H; subst; exact Hok.
-        + intros [H|[H|[H|H]]]; discriminate.
-      - destruct (explicit (o_cls cur) (opname o')).
-        + intros [H|[H|[H|H]]]; inversion H; subst; simpl. intros _ ec [].
-        + intros [H|[H|[H|H]]]; discriminate.
-      - intros [H|[H|[H|H]]]; inversion H; subst; exact Hok. }
-    destruct o; unfold step; rewrite ?Hl, ?Hm; simpl;
-      try (intros [H|[H|[H|H]]]; inversion H; subst; exact Hok).
-    - (* OCopy *) apply (Hder OCopy I).
-    - (* OBin *) destruct (String.eqb name "__add__" && Nat.eqb (o_cls cur) 5).
-      + intros [H|[H|[H|H]]]; inversion H; subst; simpl. intros _ ec [].
-      + apply (Hder (OBin name plain) I).
-    - (* ORefl *) destruct (String.eqb name "__add__" && Nat.eqb (o_cls cur) 5).
-      + intros [H|[H|[H|H]]]; inversion H; subst; simpl. intros _ ec [].
-      + apply (Hder (ORefl name) I).
-    - (* OIBin *) destruct (negb (smemb name (inplace_names (base_of (o_cls cur))))).
-      + intros [H|[H|[H|H]]]; inversion H; subst; exact Hok.
-      + destruct (all_valid tags (o_cls cur) (o_attrs cur) (o_payload other)) eqn:E.
-        * intros [H|[H|[H|H]]]; inversion H; subst; simpl. apply adm_app; [exact Hok|apply all_valid_adm; exact E].
-        * intros [H|[H|[H|H]]]; inversion H; subst; exact Hok.
-    - (* OUpd *) destruct (_ && _); intros [H|[H|[H|H]]]; inversion H; subst; exact Hok.
-    - (* OMul *) apply (Hder (OMul n) I).
-    - (* ORmul *) apply (Hder (ORmul n) I).
-    - (* OImul *) destruct (base_of (o_cls cur)); intros [H|[H|[H|H]]]; inversion H; subst; simpl; try exact Hok.
-      eapply adm_incl; [apply incl_rep|exact Hok].
-    - (* OSlice *) apply (Hder (OSlice a b) I).
-    - (* OReversed *) apply (Hder OReversed I).
-    - (* OReverse *) destruct (base_of (o_cls cur)); intros [H|[H|[H|H]]]; inversion H; subst; simpl; try exact Hok.
-      eapply adm_incl; [|exact Hok]. intros y Hy. apply in_rev. exact Hy.
-    - (* OAppend *) destruct (valid tags (o_cls cur) (o_attrs cur) e) eqn:E;
-        intros [H|[H|[H|H]]]; inversion H; subst; simpl; try exact Hok.
+    destruct o;
+      try (match goal with |- context [step tags cur other ?o'] => apply (common_step_ok cur other o' Hok I x) end; fail);
+      unfold pay_ok in *; unfold step; rewrite ?Hl, ?Hm; simpl; try (fin Hok; fail).
+    - (* OIBin *) destruct (negb (smemb name (inplace_names (base_of (o_cls cur))))); [fin Hok|].
+      destruct (all_valid tags (o_cls cur) (o_attrs cur) (o_payload other)) eqn:E; fin Hok.
+      apply adm_app; [exact Hok|apply all_valid_adm; exact E].
+    - (* OImul *) destruct (base_of (o_cls cur)); fin Hok. eapply adm_incl; [apply incl_rep|exact Hok].
+    - (* OAppend *) destruct (valid tags (o_cls cur) (o_attrs cur) e) eqn:E; fin Hok.
       apply adm_app; [exact Hok|]. intros Hv ec [<-|[]]. simpl. apply valid_adm; assumption.
-    - (* OInsert *) destruct (valid tags (o_cls cur) (o_attrs cur) e) eqn:E;
-        intros [H|[H|[H|H]]]; inversion H; subst; simpl; try exact Hok.
+    - (* OInsert *) destruct (valid tags (o_cls cur) (o_attrs cur) e) eqn:E; fin Hok.
       unfold insert_at. apply adm_app; [eapply adm_incl; [apply incl_firstn|exact Hok]|].
       intros Hv ec [<-|Hin]; [simpl; apply valid_adm; assumption|].
       apply Hok; [exact Hv|]. eapply incl_skipn. exact Hin.
-    - (* OExtend *) destruct (all_valid tags (o_cls cur) (o_attrs cur) (ones es)) eqn:E;
-        intros [H|[H|[H|H]]]; inversion H; subst; simpl; try exact Hok.
+    - (* OExtend *) destruct (all_valid tags (o_cls cur) (o_attrs cur) (ones es)) eqn:E; fin Hok.
       apply adm_app; [exact Hok|apply all_valid_adm; exact E].
-    - (* OIaddEls *) destruct (all_valid tags (o_cls cur) (o_attrs cur) (ones es)) eqn:E;
-        intros [H|[H|[H|H]]]; inversion H; subst; simpl; try exact Hok.
+    - (* OIaddEls *) destruct (all_valid tags (o_cls cur) (o_attrs cur) (ones es)) eqn:E; fin Hok.
       apply adm_app; [exact Hok|apply all_valid_adm; exact E].
     - (* OSetitem *) destruct (valid tags (o_cls cur) (o_attrs cur) e) eqn:E; simpl;
-        [destruct (i <? List.length (o_payload cur))|];
-        intros [H|[H|[H|H]]]; inversion H; subst; simpl; try exact Hok.
+        [destruct (i <? List.length (o_payload cur))|]; fin Hok.
       apply adm_set_nth; [exact Hok|]. simpl. intros Hv. apply valid_adm; assumption.
-    - (* OSetslice *) destruct (negb (validation_on (o_attrs cur))) eqn:E;
-        intros [H|[H|[H|H]]]; inversion H; subst; simpl; try exact Hok.
+    - (* OSetslice *) destruct (negb (validation_on (o_attrs cur))) eqn:E; fin Hok.
       intros Hv. apply negb_true_iff in E. congruence.
-    - (* OAsMulti *) destruct (forallb _ (o_payload cur));
-        intros [H|[H|[H|H]]]; inversion H; subst; simpl; try exact Hok. intros _ ec [].
-    - (* OCtorVal *) destruct (all_valid tags (o_cls cur) _ (o_payload cur)) eqn:E;
-        intros [H|[H|[H|H]]]; inversion H; subst; simpl; try exact Hok.
-      apply all_valid_adm. exact E.
+    - (* OAsMulti *) destruct (forallb _ (o_payload cur)); fin Hok. apply adm_nil.
+    - (* OPop *) destruct (rev (o_payload cur)) as [|y r] eqn:E; fin Hok.
+      eapply adm_incl; [|exact Hok]. intros z Hz. apply in_rev in Hz.
+      apply in_rev. rewrite E. right. exact Hz.
+  Qed.
+
+  (* ---- Counter payloads ---------------------------------------------------------------------------- *)
+  Definition keysP (P : nat -> Prop) (p : payload) : Prop := forall ec, In ec p -> P (fst ec).
+
+  Lemma keysP_cset (P : nat -> Prop) e k p : keysP P p -> P e -> keysP P (cset e k p).
+  Proof.
+    induction p as [|[e' c'] r IH]; simpl; intros Hp He ec Hin.
+    - destruct Hin as [<-|[]]. exact He.
+    - destruct (Nat.eqb e e').
+      + destruct Hin as [<-|Hin]; [exact He|apply Hp; right; exact Hin].
+      + destruct (e <? e').
+        * destruct Hin as [<-|Hin]; [exact He|apply Hp; exact Hin].
+        * destruct Hin as [<-|Hin]; [apply (Hp (e', c')); left; reflexivity|].
+          apply (IH (fun x Hx => Hp x (or_intror Hx)) He ec Hin).
+  Qed.
+
+  Lemma keysP_filter (P : nat -> Prop) f p : keysP P p -> keysP P (filter f p).
+  Proof. intros Hp ec Hin. apply filter_In in Hin. apply Hp. tauto. Qed.
+
+  Lemma keysP_map_snd (P : nat -> Prop) (g : nat * Z -> Z) p : keysP P p -> keysP P (map (fun ec => (fst ec, g ec)) p).
+  Proof. intros Hp ec Hin. apply in_map_iff in Hin. destruct Hin as (x & <- & Hx). simpl. apply Hp. exact Hx. Qed.
+
+  Lemma keysP_fold_cset (P : nat -> Prop) (g : payload -> nat * Z -> Z) (ecs : list (nat * Z)) : forall p : payload,
+    (forall ec, In ec ecs -> P (fst ec)) -> keysP P p ->
+    keysP P (fold_left (fun acc ec => cset (fst ec) (g acc ec) acc) ecs p).
+  Proof.
+    induction ecs as [|ec r IH]; simpl; intros p He Hp; [exact Hp|].
+    apply IH; [intros x Hx; apply He; right; exact Hx|]. apply keysP_cset; [exact Hp|apply He; left; reflexivity].
+  Qed.
+
+  Lemma keysP_mp_seq (P : nat -> Prop) c a f :
+    (forall e n acc, keysP P acc -> P e -> keysP P (f e n acc)) ->
+    (forall e, valid tags c a e = true -> P e) ->
+    forall ecs p, keysP P p -> keysP P (snd (mp_seq tags c a f ecs p)).
+  Proof.
+    intros Hf Hv. induction ecs as [|[e n] r IH]; simpl; intros p Hp; [exact Hp|].
+    destruct (hashable (tag tags e) && valid tags c a e) eqn:E; simpl; [|exact Hp].
+    apply IH. apply Hf; [exact Hp|]. apply Hv. apply andb_true_iff in E. tauto.
+  Qed.
+
+  Lemma adm_keysP c a p : admissible c a p <->
+    (validation_on a = true -> keysP (fun e => accepts c (btype a) (tag tags e) = true) p).
+  Proof. unfold admissible, keysP. tauto. Qed.
+
+  (* every mutator and every deriving operation of a MULTIPROFILE leaves an admissible payload *)
+  Lemma multi_profile_step_ok cur other o :
+    is_multi_profile (o_cls cur) = true -> pay_ok cur ->
+    (forall x,
+      (step tags cur other o = RRaise x \/ step tags cur other o = RSame x \/ step tags cur other o = RNone x
+       \/ step tags cur other o = RNew x) -> pay_ok x).
+  Proof.
+    intros Hm Hok x.
+    assert (Hl : is_list_profile (o_cls cur) = false).
+    { unfold is_list_profile, is_multi_profile in *. apply andb_true_iff in Hm. destruct Hm as [H1 H2].
+      apply Nat.leb_le in H1, H2. apply andb_false_iff. right. apply Nat.leb_gt. lia. }
+    destruct o;
+      try (match goal with |- context [step tags cur other ?o'] => apply (common_step_ok cur other o' Hok I x) end; fail);
+      unfold pay_ok in *; unfold step; rewrite ?Hl, ?Hm; simpl; try (fin Hok; fail).
+    - (* OIBin *)
+      destruct (negb (smemb name (inplace_names (base_of (o_cls cur))))); [fin Hok|].
+      assert (Hseq : forall f ecs,
+                (forall (P : nat -> Prop) e n acc, keysP P acc -> P e -> keysP P (f e n acc)) ->
+                admissible (o_cls cur) (o_attrs cur) (snd (mp_seq tags (o_cls cur) (o_attrs cur) f ecs (o_payload cur)))).
+      { intros f ecs Hf. apply adm_keysP. intros Hv. apply keysP_mp_seq.
+        - apply Hf.
+        - intros e He. apply valid_adm; assumption.
+        - apply adm_keysP; assumption. }
+      assert (Hkp : forall p, admissible (o_cls cur) (o_attrs cur) p ->
+                              admissible (o_cls cur) (o_attrs cur) (keep_positive p)).
+      { intros p Hp. apply adm_keysP. intros Hv. apply keysP_filter. apply adm_keysP; assumption. }
+      destruct (String.eqb name "__iadd__").
+      { match goal with |- context [mp_seq ?t ?c ?a ?f ?q ?p] =>
+          pose proof (Hseq f q (fun P e n acc Ha He => keysP_cset P e _ acc Ha He)) as Hs;
+          destruct (mp_seq t c a f q p) as [ok p'] end.
+        simpl in Hs. destruct ok; fin Hok; auto. }
+      destruct (String.eqb name "__isub__").
+      { match goal with |- context [mp_seq ?t ?c ?a ?f ?q ?p] =>
+          pose proof (Hseq f q (fun P e n acc Ha He => keysP_cset P e _ acc Ha He)) as Hs;
+          destruct (mp_seq t c a f q p) as [ok p'] end.
+        simpl in Hs. destruct ok; fin Hok; auto. }
+      destruct (String.eqb name "__ior__").
+      { match goal with |- context [mp_seq ?t ?c ?a ?f ?q ?p] =>
+          assert (Hs : admissible (o_cls cur) (o_attrs cur) (snd (mp_seq t c a f q p)));
+          [apply Hseq; intros P e n acc Ha He; simpl; destruct (cget e acc <? n)%Z; [apply keysP_cset; assumption|exact Ha]|];
+          destruct (mp_seq t c a f q p) as [ok p'] end.
+        simpl in Hs. destruct ok; fin Hok; auto. }
+      fin Hok. unfold c_and. apply Hkp. apply adm_keysP. intros Hv. apply keysP_map_snd. apply adm_keysP; assumption.
+    - (* OImul *) destruct (base_of (o_cls cur)); fin Hok. apply adm_nil.
+    - (* OAppend *) destruct (hashable (tag tags e) && valid tags (o_cls cur) (o_attrs cur) e) eqn:E; fin Hok.
+      apply andb_true_iff in E. destruct E as [_ E].
+      apply adm_keysP. intros Hv. apply keysP_cset; [apply adm_keysP; assumption|apply valid_adm; assumption].
+    - (* OExtend *)
+      match goal with |- context [mp_seq ?t ?c ?a ?f ?q ?p] =>
+        assert (Hs : admissible (o_cls cur) (o_attrs cur) (snd (mp_seq t c a f q p)));
+        [apply adm_keysP; intros Hv; apply keysP_mp_seq;
+           [intros e n acc Ha He; apply keysP_cset; assumption
+           |intros e He; apply valid_adm; assumption|apply adm_keysP; assumption]|];
+        destruct (mp_seq t c a f q p) as [ok p'] end.
+      simpl in Hs. destruct ok; fin Hok; auto.
+    - (* OMpSetitem *) destruct (hashable (tag tags e) && valid tags (o_cls cur) (o_attrs cur) e) eqn:E; fin Hok.
+      apply andb_true_iff in E. destruct E as [_ E].
+      apply adm_keysP. intros Hv. apply keysP_cset; [apply adm_keysP; assumption|apply valid_adm; assumption].
+    - (* OSetdefault *) destruct (hashable (tag tags e) && valid tags (o_cls cur) (o_attrs cur) e) eqn:E; fin Hok.
+      apply andb_true_iff in E. destruct E as [_ E]. destruct (existsb _ (o_payload cur)); [exact Hok|].
+      apply adm_keysP. intros Hv. apply keysP_cset; [apply adm_keysP; assumption|apply valid_adm; assumption].
+    - (* OUpdateIter *)
+      match goal with |- context [mp_seq ?t ?c ?a ?f ?q ?p] =>
+        assert (Hs : admissible (o_cls cur) (o_attrs cur) (snd (mp_seq t c a f q p)));
+        [apply adm_keysP; intros Hv; apply keysP_mp_seq;
+           [intros e n acc Ha He; apply keysP_cset; assumption
+           |intros e He; apply valid_adm; assumption|apply adm_keysP; assumption]|];
+        destruct (mp_seq t c a f q p) as [ok p'] end.
+      simpl in Hs. destruct ok; fin Hok; auto.
+    - (* OUpdateMap *) destruct (forallb _ ecs) eqn:E; fin Hok.
+      rewrite forallb_forall in E. apply adm_keysP. intros Hv.
+      apply (keysP_fold_cset _ (fun acc ec => (cget (fst ec) acc + snd ec)%Z)).
+      + intros ec Hin. specialize (E ec Hin). apply andb_true_iff in E. destruct E as [_ E]. apply valid_adm; assumption.
+      + apply adm_keysP; assumption.
   Qed.
 
   Lemma ctorval_spec cur other b x :
@@ -332,17 +487,30 @@ Section Validated.
   Definition res_ok (r : res) : Prop :=
     match r with RRaise x | RSame x | RNone x | RNew x => pay_ok x | RPlain => True end.
 
-  Lemma list_profile_run_ok other ops : forall cur,
-    is_list_profile (o_cls cur) = true -> pay_ok cur -> Forall res_ok (run_ops tags cur other ops).
+  Definition is_profile (c : nat) : bool := is_list_profile c || is_multi_profile c.
+
+  Lemma profile_step_ok cur other o :
+    is_profile (o_cls cur) = true -> pay_ok cur ->
+    (forall x,
+      (step tags cur other o = RRaise x \/ step tags cur other o = RSame x \/ step tags cur other o = RNone x
+       \/ step tags cur other o = RNew x) -> pay_ok x).
+  Proof.
+    unfold is_profile. intros Hp. apply orb_true_iff in Hp.
+    destruct Hp; [apply list_profile_step_ok|apply multi_profile_step_ok]; assumption.
+  Qed.
+
+  (* list profiles AND multiprofiles: every sequence of operations, of any length *)
+  Lemma profile_run_ok other ops : forall cur,
+    is_profile (o_cls cur) = true -> pay_ok cur -> Forall res_ok (run_ops tags cur other ops).
   Proof.
     induction ops as [|o ops IH]; intros cur Hl Hok; simpl; constructor.
     - destruct (step tags cur other o) eqn:E; simpl; auto;
-        eapply (list_profile_step_ok cur other o Hl Hok); rewrite E; auto.
+        eapply (profile_step_ok cur other o Hl Hok); rewrite E; auto.
     - apply IH.
       + destruct (next_same tags cur other o) as [H1 _]. rewrite H1. exact Hl.
       + destruct (step tags cur other o) eqn:E; simpl; auto;
-          try (eapply (list_profile_step_ok cur other o Hl Hok); rewrite E; auto; fail).
+          try (eapply (profile_step_ok cur other o Hl Hok); rewrite E; auto; fail).
         destruct (Nat.eqb (o_cls o0) (o_cls cur) && nl_eqb (o_attrs o0) (o_attrs cur)); [|exact Hok].
-        eapply (list_profile_step_ok cur other o Hl Hok); rewrite E; auto.
+        eapply (profile_step_ok cur other o Hl Hok); rewrite E; auto.
   Qed.
 End Validated.
